@@ -19,6 +19,8 @@ import traceback
 from vf.core import Reject, Sub, Violation, canon_json, spec_hash
 
 HERE = os.path.dirname(os.path.dirname(os.path.abspath(__file__)))
+# VERIF_BUDGET_SCALE shortens/lengthens every wall guard (dry runs of the thorough tier)
+BUDGET_SCALE = float(os.environ.get("VERIF_BUDGET_SCALE", "1") or 1)
 NCPU = int(os.environ.get("VERIF_JOBS", "0")) or min(16, os.cpu_count() or 1)
 
 
@@ -103,7 +105,7 @@ def _run_one(sub: Sub, res: ShardResult, spec, known):
 def run_enum_shard(sub: Sub, tier, shard, nshards, known, seed):
     res = ShardResult()
     t0 = time.time()
-    budget = sub.budget_s[tier]
+    budget = sub.budget_s[tier] * BUDGET_SCALE
     cap = None
     try:
         for i, spec in enumerate(sub.cases(tier)):
@@ -148,7 +150,7 @@ def run_hyp_shard(sub: Sub, tier, shard, nshards, known, seed):
     t0 = time.time()
     total = sub.n[tier]
     n = max(1, math.ceil(total / nshards))
-    budget = sub.budget_s[tier]
+    budget = sub.budget_s[tier] * BUDGET_SCALE
     shrink_budget = 40 if tier == "quick" else 240
     state = {"first_fail": None, "best": None, "stop": False}
 
